@@ -41,7 +41,7 @@ type job struct {
 }
 
 func (j job) rng() *vlib.RNG {
-	p := map[string]uint64{"hist": 1, "kseq": 2, "race": 3, "fs": 4, "directed": 5}[j.Part]
+	p := map[string]uint64{"hist": 1, "kseq": 2, "race": 3, "fs": 4, "directed": 5, "fsk": 6}[j.Part]
 	return vlib.NewRNG(j.Seed*1000003 + p*7919 + uint64(j.Index)*104729)
 }
 
@@ -57,6 +57,8 @@ type knownHit struct {
 }
 
 type collector struct {
+	fcases   []kcase // file-storage model cases (fsmodel.go), not subject to the sequence cap
+	thorough bool
 	mu       sync.Mutex
 	res      *vlib.Result
 	out      string
@@ -233,6 +235,23 @@ func runJob(c *collector, j job, methods []string, base string) (failed bool) {
 			c.violate(f, j, nil)
 			failed = true
 		}
+	case "fsk":
+		cases, fails, stats, notes, known := fsModelChecks(r, base, c.thorough)
+		for id, d := range known {
+			c.knownHit(id, d, j)
+		}
+		for k, v := range stats {
+			res.Count(k, v)
+		}
+		c.mu.Lock()
+		c.notes = append(c.notes, notes...)
+		c.fcases = append(c.fcases, cases...)
+		c.mu.Unlock()
+		res.Eval("fsk", false)
+		for _, f := range fails {
+			c.violate(f, j, nil)
+			failed = true
+		}
 	case "fs":
 		fails, stats, notes := fileStorageChecks(r, base)
 		for k, v := range stats {
@@ -251,9 +270,13 @@ func runJob(c *collector, j job, methods []string, base string) (failed bool) {
 }
 
 func main() {
+	if spec := os.Getenv("C18_FS_CHILD"); spec != "" {
+		fsChild(spec) // the process traced by strace (fsmodel.go)
+		return
+	}
 	a := vlib.ParseArgs()
 	res := vlib.NewResult("C18", a.Out, "prior histories built with lib/dbh programs over the option lattice x 4 comparers, ending in each of 5 situations (data only in the journal; tables at several levels; Close with compaction pending; Close with an open transaction owning tables; Close with live snapshots and iterators), half of them switched with SetReadOnly before Close; on each: read-only Open of a CLONE of the storage (audit: zero mutating operations, data = Go map incl. journal-only data, writes rejected), every reflected method after Close (class, no panic, no hang, no storage operation), released handles, reopen (lock free, exclusive); plus generated call sequences replayed on the Coq machine, calls racing with Close, and the real file storage; non-trivial = the history left unflushed journal data AND >= 2 populated levels")
-	c := &collector{res: res, out: a.Out, histDone: map[int]int{}}
+	c := &collector{res: res, out: a.Out, histDone: map[int]int{}, thorough: a.Thorough()}
 	leveldb.VerifSetTableOpenedHook(tableOpenedHook)
 	defer res.Write()
 	defer c.flushKnown()
@@ -324,7 +347,7 @@ func main() {
 		nh, nk, nr = nh*3, nk*2, nr*3
 	}
 	var jobs []job
-	jobs = append(jobs, job{Part: "fs", Seed: a.Seed}, job{Part: "directed", Seed: a.Seed})
+	jobs = append(jobs, job{Part: "fs", Seed: a.Seed}, job{Part: "directed", Seed: a.Seed}, job{Part: "fsk", Seed: a.Seed})
 	for i := 0; i < nh; i++ {
 		jobs = append(jobs, job{Part: "hist", Index: i, Sit: i % numSits, Nops: 80 + (i*37)%hops, Seed: a.Seed})
 	}
@@ -378,12 +401,13 @@ func main() {
 		res.Extra["k_sequences_executed_but_not_replayed_in_coq"] = len(c.kcases) - kcap
 		c.kcases = c.kcases[:kcap]
 	}
-	for _, kc := range c.kcases {
+	for _, kc := range append(c.kcases, c.fcases...) {
 		cases = append(cases, kc.coq)
 		kj = append(kj, kc.js)
 	}
+	res.Extra["k_file_storage_cases"] = len(c.fcases)
 	b, _ := json.Marshal(kj)
 	os.WriteFile(filepath.Join(a.Out, "kcases_C18.json"), b, 0o644)
-	res.WriteCases("From GL Require Import Store.Lifecycle Corr.C18Run.", "c18case", "mismatches", cases, 16)
+	res.WriteCases("From GL Require Import Store.Lifecycle Store.FileStorage Corr.C18Run.\nFrom Coq Require Import ZArith.", "c18case", "mismatches", cases, 16)
 	_ = leveldb.ErrClosed
 }
